@@ -3,7 +3,7 @@
     the single flush goroutine; readers (Head, Height, GetByHeight, Get) may run
     between any two of its synchronised steps. [flush_micro] lists the states a
     reader can observe while one queued batch is flushed:
-      ensureInit | pending.Append | advanceHead | recedeTail | batch.Commit | pending.Reset *)
+      pending.Append | ensureInit | advanceHead | recedeTail | batch.Commit | pending.Reset *)
 From Coq Require Import NArith List Bool.
 From stdpp Require Import gmap.
 From GH Require Import Base.Prelude Model.Store.
@@ -12,8 +12,8 @@ Open Scope N_scope.
 
 Definition flush_micro (s : st) (o : option (list hdr)) : list st :=
   let hs := match o with Some l => l | None => [] end in
-  let s1 := ensure_init s hs in
-  let s2 := pend_add s1 hs in
+  let s1 := pend_add s hs in
+  let s2 := ensure_init s1 hs in
   let s3 := advance_head s2 in
   let s4 := recede_tail s3 in
   if (N.of_nat (size (pend_h s4)) <? batch s4) && (match o with Some _ => true | None => false end)
